@@ -140,9 +140,6 @@ package rtpconn
 //@ extern (*github.com/pion/webrtc/v4.TrackLocalStaticRTP).Write
 //@   why pion: marshals the packet to the bound write streams (rewriting SSRC / payload type / stripping extensions per binding); does not retain or modify b
 //@   modifies nothing
-//@ extern log.Printf
-//@   why logging only
-//@   modifies nothing
 //@
 //@ -- ghost: what this down track has emitted (specification only)
 //@ ghost field rtpDownTrack.emitted int
